@@ -176,6 +176,40 @@ step(struct rp_h *h, const struct req *q, RPBlockAccess verdict, const char *ctx
 
 static int oversize_mismatch;
 
+/* a second instance with the opposite transport and word size lives next to the one under test and serves a
+ * request of its own every few steps: whatever the library keeps per instance must not leak between them */
+static struct rp_h H2;
+static int h2_alive;
+
+static void
+bystander_setup(const struct rp_h *main_inst)
+{
+    rp_setup(&H2, !main_inst->serial, !main_inst->mem16, 128);
+    h2_alive = 1;
+    rp_cur = (struct rp_h *)(uintptr_t)main_inst;
+}
+
+static void
+bystander_step(struct rp_h *main_inst, vh_rng *rg)
+{
+    if (!h2_alive)
+        return;
+    struct req q;
+    memset(&q, 0, sizeof q);
+    q.kind = vh_chance(rg, 1, 2) ? RT_READ_REQ : RT_WRITE_REQ;
+    q.w16 = H2.mem16;
+    q.seq = (uint16_t)vh_rand(rg);
+    q.addr = (uint32_t)vh_rand(rg);
+    q.bsize = 1 + (uint32_t)vh_below(rg, 4);
+    q.plen = q.kind == RT_WRITE_REQ ? q.bsize * (q.w16 ? 2u : 1u) : 0;
+    for (size_t i = 0; i < q.plen; i++)
+        q.payload[i] = (unsigned char)vh_rand(rg);
+    rp_cur = &H2;
+    step(&H2, &q, (RPBlockAccess){ .status = RP_RESP_ACK, .address = 0 }, "bystander instance");
+    rp_cur = main_inst;
+    VH_COUNT("request served by a second instance in between");
+}
+
 static void
 gen_req(vh_rng *rg, const struct rp_h *h, struct req *q, uint16_t seq)
 {
@@ -245,8 +279,13 @@ u_session(uint64_t idx, void *arg)
          * and allocation failures are received and processed in between (their own handling is C07's and C09's
          * subject); the requests that follow must be served as if nothing had happened */
         const int noisy = s & 1;
+        h2_alive = 0;
+        if (s & 2)
+            bystander_setup(&H);
         for (unsigned f = 0; f < nframes; f++) {
             struct req q;
+            if (h2_alive && (f % 3) == 1)
+                bystander_step(&H, &rg);
             if (noisy && vh_chance(&rg, 1, 3)) {
                 struct req nq;
                 unsigned char wire[1400], raw[700];
@@ -756,6 +795,7 @@ harness_run(void)
     vh_require("non-request frame: no access, no reply");
     vh_require("request with the wrong word size");
     vh_require("noise frame between requests of a session");
+    vh_require("request served by a second instance in between");
     vh_require("read with the wrong word size and a block no answer could carry");
     vh_require("frame carrying 65536 or more payload octets");
     static const char *t[] = { "table verdict -> ACK", "table verdict -> EUNMAPPED", "table verdict -> EACCESS",
